@@ -326,6 +326,24 @@ def _list_query(case, root, stacks):
         except Exception as ex:  # noqa
             return {"err": "BadExpr" if type(ex).__name__ == "EupsException" else "E:" + type(ex).__name__}
 
+    def cli():
+        # `eups list prod [version] [-t tag …]` as the command prints it: one line per product, version and tags
+        import eups.app as app
+        buf = io.StringIO()
+        with contextlib.redirect_stdout(buf), contextlib.redirect_stderr(io.StringIO()):
+            app.printProducts(buf, "prod", case["version"] or None, eupsenv=e, tags=(list(case["tags"]) or None))
+        # a tag carried in several stacks is printed as tag[stack]
+        return [[ln.split()[0], sorted(t.split("[")[0] for t in ln.split()[1:] if t.split("[")[0] in LIST_TAGS)]
+                for ln in buf.getvalue().splitlines() if ln.strip()]
+
+    try:
+        printed = cli()
+    except IndexError:
+        printed = {"err": "IndexError"}
+    except AttributeError:
+        printed = {"err": "Malformed"}
+    except Exception as ex:  # noqa
+        printed = {"err": {"EupsException": "BadExpr", "ProductNotFound": "ProductNotFound"}.get(type(ex).__name__, "E:" + type(ex).__name__)}
     arg = case["version"]
     find = entry = None
     if arg:
@@ -340,7 +358,7 @@ def _list_query(case, root, stacks):
             return [ref(p), None if not why else "versionExpr" if why[0] == "versionExpr" else "explicit"]
         entry = guarded(vro)
     allv = list(dict.fromkeys(d["ver"] for st in case["stacks"] for d in st))
-    return {"products": res, "find": find, "entry": entry, "preferred": list(e.preferredTags),
+    return {"products": res, "cli": printed, "find": find, "entry": entry, "preferred": list(e.preferredTags),
             "terms": {v: [impl_cmp(v, tv, True) for _, tv in case["terms"]] for v in allv},
             "order": {v: "".join(impl_cmp(w, v, False) for w in allv) for v in allv}}
 
@@ -778,6 +796,17 @@ def eval_list(ctx, c, inp, io_, ans):
     if got != mo:
         ctx.disagree("findProducts", inp, got, mo)
     eval_list_entries(ctx, c, inp, io_, ans)
+    # the command level: what `eups list` prints (sorted by version *string* there) against the model's listing
+    decl_ = {(i, d["ver"]): d["tags"] for i, st in enumerate(stacks) for d in st}
+    if isinstance(mo, dict):
+        mcli = mo
+    elif not mo:
+        mcli = {"err": "ProductNotFound"}
+    else:
+        mcli = sorted([v, sorted(decl_.get((i, v), []))] for i, v in mo)
+    ctx.hist("list/cli=" + ("err:" + io_["cli"]["err"] if isinstance(io_["cli"], dict) else "lines"))
+    if io_["cli"] != mcli:
+        ctx.disagree("eups_list_output", inp, io_["cli"], mcli)
     if isinstance(got, dict):
         ctx.hist("list/outcome=" + got["err"])
         if c["argkind"] in ("expr", "none", "glob") and c.get("pure", True):
@@ -825,6 +854,11 @@ def eval_list(ctx, c, inp, io_, ans):
                          note="%r (stack %d) is listed but %s" % (v, i, "compares %s with the terms" % io_["terms"][v]
                                                                    if c["argkind"] == "expr" else "does not match the pattern"))
                 break
+        if isinstance(io_["cli"], list):
+            for v, _ts in io_["cli"]:
+                if v in sat and not sat[v]:
+                    ctx.fail("list_satisfies_request", inp, io_["cli"], mo, note="`eups list` prints %r, which does not satisfy the request" % v)
+                    break
         gotv = [v for _, v in got]
         if len(set(gotv)) != len(gotv):
             ctx.fail("list_each_version_once", inp, got, mo, note="a version is listed twice")
